@@ -328,6 +328,14 @@ class EprRun:
             resp = LinkLayerOKTypeM(type=ReturnType.OK_M, create_id=0, measurement_outcome=seq % 2, measurement_basis=0,
                                     directionality_flag=st["dir"], sequence_number=seq, purpose_id=st["purpose"],
                                     remote_node_id=st["remote"], goodness=0, bell_state=BellState(seq % 4))
+        if self.scn.get("q10"):
+            import qlink_interface as q10
+            common = dict(create_id=resp.create_id, directionality_flag=resp.directionality_flag, sequence_number=resp.sequence_number,
+                          purpose_id=resp.purpose_id, remote_node_id=resp.remote_node_id, goodness=resp.goodness, bell_state=resp.bell_state)
+            if st["type"] == "K":
+                resp = q10.ResCreateAndKeep(logical_qubit_id=resp.logical_qubit_id, time_of_goodness=resp.goodness_time, **common)
+            else:
+                resp = q10.ResMeasureDirectly(measurement_outcome=resp.measurement_outcome, measurement_basis=q10.MeasurementBasis(0), **common)
         try:
             self.ex._handle_epr_response(resp)
         except Exception as exc:
@@ -717,8 +725,10 @@ class AutoLink:
     responses whenever the executor waits.  bell / outcome / basis scripts are
     consumed in pair order."""
 
-    def __init__(self, ex: "VExecutor", stack: RecordingStack, bell=None, outcomes=None, remote_streams=None, fields=None, stepwise=False, mark=False):
+    def __init__(self, ex: "VExecutor", stack: RecordingStack, bell=None, outcomes=None, remote_streams=None, fields=None, stepwise=False, mark=False,
+                 qlink10=False):
         self.mark = mark                    # record every K delivery in the executor's gate log
+        self.qlink10 = qlink10              # hand the executor qlink-interface 1.0 response objects (the documented conversion path)
         self.ex, self.stack = ex, stack
         self.stepwise = stepwise            # at most one response per wait (the link delivers pair after pair)
         self.bell = list(bell or [])
@@ -750,6 +760,14 @@ class AutoLink:
         if kind == "K" and self.mark:
             # the delivery is part of the quantum history: pair i now lives on physical qubit phys
             self.ex.gate_log.append(("deliver", (i,), (int(bell.value),), (phys,)))
+        if self.qlink10:
+            import qlink_interface as q10
+            common = dict(create_id=r.create_id, directionality_flag=r.directionality_flag, sequence_number=r.sequence_number,
+                          purpose_id=r.purpose_id, remote_node_id=r.remote_node_id, goodness=r.goodness, bell_state=r.bell_state)
+            if kind == "K":
+                return q10.ResCreateAndKeep(logical_qubit_id=r.logical_qubit_id, time_of_goodness=r.goodness_time, **common)
+            mb = r.measurement_basis.value if hasattr(r.measurement_basis, "value") else r.measurement_basis
+            return q10.ResMeasureDirectly(measurement_outcome=r.measurement_outcome, measurement_basis=q10.MeasurementBasis(mb), **common)
         return r
 
     def on_wait(self) -> bool:
